@@ -169,3 +169,16 @@ Theorem C07_sig_assign_member_contravariant : forall ann_e ann_a le_ret e a,
       forall c', In c' classes -> sub_promo table c' (ann_e m) = true -> sub_promo table c' (ann_a t) = true.
 Proof. exact sig_assign_member_contravariant. Qed.
 Print Assumptions C07_sig_assign_member_contravariant.
+
+(* Overloads on either side (`ov_kinds_ok` = every expected overload is satisfied by some
+   overload of the accepted callable, as Signature.can_assign / OverloadedSignature.can_assign
+   decide): a call accepted by some overload of the expected side is bound by some overload
+   of the accepted side.  Any number and size of overloads. *)
+Theorem C07_overloads_sound : forall es as_ npos kws,
+  (forall e, In e es -> valid_sig e = true) -> (forall a, In a as_ -> valid_sig a = true) ->
+  (forall e a, In e es -> In a as_ -> double_fill e a = false) ->
+  names_nodup kws = true -> ov_kinds_ok es as_ = true ->
+  (exists e, In e es /\ py_bind e npos kws = true) ->
+  exists a, In a as_ /\ py_bind a npos kws = true.
+Proof. exact overloads_sound. Qed.
+Print Assumptions C07_overloads_sound.
